@@ -336,11 +336,14 @@ func parseBody(m *Msg) string {
 		}
 		return exact()
 	case 't':
-		n, ok := c.i16()
-		if !ok || n < 0 {
+		n16, ok := c.i16()
+		if !ok {
 			return "ParameterDescription: bad count"
 		}
-		for i := 0; i < int(n); i++ {
+		// the count is read as unsigned: the protocol allows up to 65535
+		// parameters, which do not fit a signed 16-bit integer
+		n := int(uint16(n16))
+		for i := 0; i < n; i++ {
 			o, ok := c.i32()
 			if !ok {
 				return fmt.Sprintf("ParameterDescription: parameter %d of %d missing", i, n)
